@@ -164,7 +164,21 @@ def run(M, rep, tier, only=None):
         for (pre, u, w), ps in sorted(groups.items(), key=lambda kv: -len(kv[1])):
             reps = ints + (slices_full if (first or tier == "thorough") else slices_small)
             first = False
+            # decisions about the one index element / window element under study; decisions about the index as a whole (its
+            # length against the rank, ...) belong to the expansion table below
+            whole = lambda a, u=u: any(x and x[0] == "comp" for x in subterms(a)) and not any(x == u for x in subterms(a))
             relevant = {id(p): [(a, v) for a, v in p.decisions if any(x == u or x == w for x in subterms(a))] for p in ps}
+
+            def whole_refusal(p):
+                # a refusal decided by the index as a whole (its length, ...) is not a row of the per-element table
+                if p.terminal[0] != "raise":
+                    return False
+                for c_, _ in reversed(getattr(p.terminal[1], "ctrl_conds", ())):
+                    if c_.t and c_.t[0] in ("iter", "handler"):
+                        continue
+                    return whole(c_.t)
+                return False
+            ps = [p for p in ps if not whole_refusal(p)]
             for win in windows:
                 for uv in reps:
                     n = win.stop - win.start
@@ -195,6 +209,8 @@ def run(M, rep, tier, only=None):
                                 try:
                                     r = te.atom(a)
                                 except Unknown as e:
+                                    if whole(a):
+                                        continue    # about the index as a whole: decided in the expansion table, free here
                                     raise AnalysisError("C06.R2: the index transformation depends on an unmodelled condition %s (%s)" % (show(a)[:120], e))
                                 except (TypeError, AttributeError, ValueError):
                                     r = "n/a"   # guard not evaluable for this kind of index: path does not apply
@@ -205,6 +221,8 @@ def run(M, rep, tier, only=None):
                         if ok:
                             hit.append(p)
                     key = "elem/%s/%s" % (win, uv)
+                    if len(hit) > 1 and len({(h_.terminal[0], h_.terminal[1].t if h_.terminal[0] == "return" else h_.terminal[1].cls) for h_ in hit}) == 1:
+                        hit = hit[:1]       # rows that differ only in decisions about the index as a whole
                     if len(hit) != 1:
                         if nbad < 5:
                             rep.bad(R2, key, "%d rows of the extracted table apply to index %r on window %r (expected exactly one)" % (len(hit), uv, win),
@@ -247,9 +265,9 @@ def run(M, rep, tier, only=None):
         paths = ctx.paths(g, "DataView")
         for rank in (1, 2, 3, 4):
             cands = []
-            for L in range(0, rank + 1):
+            for L in range(0, rank + 2):         # rank + 1: an ellipsis that stands for zero axes next to `rank` indices
                 for tpl in itertools.product((1, slice(None, 2), Ellipsis), repeat=L):
-                    if len(tpl) - tpl.count(Ellipsis) <= rank:
+                    if len(tpl) - tpl.count(Ellipsis) <= rank and (L <= rank or tpl.count(Ellipsis) == 1):
                         cands.append(tpl)
             cands.append(3)             # a bare index
             for us in cands:
